@@ -20,7 +20,7 @@ import (
 var SrvFields = []Field{
 	{"proto", []string{"nil", "all", "b", "none", "custom-all", "custom-b"}},
 	{"ext", []string{"nil", "all", "none", "custom-all", "negotiate-echo", "negotiate-decline", "negotiate-error", "negotiate-pmd", "negotiate-error-x", "negotiate-error-y"}},
-	{"header", []string{"nil", "one"}},
+	{"header", []string{"nil", "one", "bytes", "http", "func-long", "func-long-fails"}},
 	{"onrequest", []string{"nil", "ok", "err", "reject403", "err-list"}},
 	{"onhost", []string{"nil", "ok", "err", "reject403", "err-list"}},
 	{"onheader", []string{"nil", "ok", "err", "reject403", "err-list"}},
@@ -131,8 +131,32 @@ func (c SrvCfg) Upgrader() ws.Upgrader {
 	case "negotiate-error-x", "negotiate-error-y":
 		u.Negotiate = selectiveNegotiate(c.V("ext"))
 	}
-	if c.V("header") == "one" {
+	switch c.V("header") {
+	case "one":
 		u.Header = ws.HandshakeHeaderString("X-Server: verif\r\n")
+	case "bytes":
+		u.Header = ws.HandshakeHeaderBytes("X-Server: verif\r\n")
+	case "http":
+		u.Header = ws.HandshakeHeaderHTTP(http.Header{"X-Server": []string{"verif"}})
+	case "func-long", "func-long-fails":
+		fails := c.V("header") == "func-long-fails"
+		u.Header = ws.HandshakeHeaderFunc(func(w io.Writer) (int64, error) {
+			// eight long header lines: more than the response writer buffers
+			var n int64
+			for i := 0; i < 8; i++ {
+				k, err := fmt.Fprintf(w, "X-Long-%d: %s\r\n", i, strings.Repeat("v", 80))
+				n += int64(k)
+				if err != nil {
+					return n, err
+				}
+			}
+			k, _ := io.WriteString(w, "X-Server: verif\r\n")
+			n += int64(k)
+			if fails {
+				return n, ErrCallback
+			}
+			return n, nil
+		})
 	}
 	if k := c.V("onrequest"); k != "nil" {
 		u.OnRequest = func([]byte) error { return cbErr(k) }
@@ -189,8 +213,12 @@ func (c SrvCfg) HTTPUpgrader() (u ws.HTTPUpgrader, ok bool) {
 	default:
 		return u, false
 	}
-	if c.V("header") == "one" {
+	switch c.V("header") {
+	case "nil":
+	case "one":
 		u.Header = http.Header{"X-Server": []string{"verif"}}
+	default:
+		return u, false
 	}
 	return u, true
 }
@@ -407,6 +435,12 @@ func JudgeServer(r Req, c SrvCfg, out []byte, hsk ws.Handshake, err error, flavo
 	}
 	mustReject := v.MustReject || (!v.Open && len(e.CallbackStatuses) > 0)
 	mustAccept := v.MustAccept && len(e.CallbackStatuses) == 0
+	if c.V("header") == "func-long-fails" {
+		// the application's own header writer reports failure: whether the upgrade then counts
+		// as failed (with a 500) is the library's choice; a 101 on a failed upgrade is not
+		mustAccept = false
+		allowed[500] = true
+	}
 	cls := flavour
 	if err == nil {
 		if mustReject {
@@ -431,12 +465,21 @@ func JudgeServer(r Req, c SrvCfg, out []byte, hsk ws.Handshake, err error, flavo
 		} else if len(g) != 1 || g[0] != want {
 			return "101-accept-value:" + cls, fmt.Sprintf("got %v want %s (key %q)", g, want, r.Key())
 		}
-		if c.V("header") == "one" {
+		if c.V("header") != "nil" {
 			if g := h.Get("X-Server"); len(g) != 1 || g[0] != "verif" {
 				return "101-extra-header-missing:" + cls, ""
 			}
 		}
-		if c.V("onbefore") == "ok-header" {
+		if strings.HasPrefix(c.V("header"), "func-long") {
+			for i := 0; i < 8; i++ {
+				if g := h.Get(fmt.Sprintf("X-Long-%d", i)); len(g) != 1 || len(g[0]) != 80 {
+					return "101-long-header-missing:" + cls, fmt.Sprintf("X-Long-%d: %v", i, g)
+				}
+			}
+		}
+		// (a header writer of the application's that reports failure ends the header block where
+		// it stands: what would have come after it is not asked for)
+		if c.V("onbefore") == "ok-header" && c.V("header") != "func-long-fails" {
 			if g := h.Get("X-Before"); len(g) != 1 {
 				return "101-onbefore-header-missing:" + cls, ""
 			}
@@ -506,17 +549,17 @@ func JudgeServer(r Req, c SrvCfg, out []byte, hsk ws.Handshake, err error, flavo
 	if !allowed[st] {
 		return fmt.Sprintf("failure-status-%d-not-allowed:%s", st, cls), fmt.Sprintf("allowed %v; err=%v; faults %v", keysInt(allowed), err, v.Reasons)
 	}
-	if st == 426 {
+	if st == 426 && c.V("header") != "func-long-fails" {
 		if g := h.Get("Sec-WebSocket-Version"); len(g) != 1 || g[0] != "13" {
 			return "426-without-version-header:" + cls, fmt.Sprintf("%v", g)
 		}
 	}
-	if st == 403 {
+	if st == 403 && c.V("header") != "func-long-fails" {
 		if g := h.Get("X-Reject"); len(g) != 1 {
 			return "reject-header-missing:" + cls, ""
 		}
 	}
-	if c.V("header") == "one" {
+	if c.V("header") != "nil" {
 		if g := h.Get("X-Server"); len(g) != 1 || g[0] != "verif" {
 			return "failure-extra-header-missing:" + cls, fmt.Sprintf("%q", head(out))
 		}
